@@ -665,6 +665,7 @@ func (l *Ledger) ConfirmBlock(block *pb.InternalBlock, isRoot bool) ConfirmStatu
 	txExist, txData := l.parallelCheckTx(realTransactions, block)
 	cbNum := 0
 	oldBlockCache := map[string]*pb.InternalBlock{}
+	keepOldTx := false
 	for _, tx := range realTransactions {
 		if tx.Coinbase {
 			cbNum = cbNum + 1
@@ -728,6 +729,11 @@ func (l *Ledger) ConfirmBlock(block *pb.InternalBlock, isRoot bool) ConfirmStatu
 			} else if block.InTrunk {
 				l.xlog.Info("change blockid of tx", "txid", utils.F(tx.Txid), "blockid", utils.F(block.Blockid))
 				batchWrite.Put(append([]byte(pb.ConfirmedTablePrefix), tx.Txid...), pbTxBuf)
+				// cache里的旧区块还带着这笔交易的旧blockid, 丢弃后从磁盘重新加载
+				l.blockCache.Del(string(oldTx.Blockid))
+			} else {
+				// 分支区块里的这笔交易在confirm表中仍然指向原来的区块, 内存里的区块对象(blockid已被改写为本区块)和磁盘不一致, 不放入cache
+				keepOldTx = true
 			}
 		}
 	}
@@ -762,7 +768,9 @@ func (l *Ledger) ConfirmBlock(block *pb.InternalBlock, isRoot bool) ConfirmStatu
 			confirmStatus.Error = lErr
 		}
 	}
-	l.blockCache.Add(string(block.Blockid), block)
+	if !keepOldTx {
+		l.blockCache.Add(string(block.Blockid), block)
+	}
 	l.xlog.Debug("confirm block cost", "blkTimer", blkTimer.Print())
 	return confirmStatus
 }
